@@ -27,7 +27,8 @@ func b64seg(s string) string { return base64.RawURLEncoding.EncodeToString([]byt
 type c10Body struct {
 	Name    string
 	Body    string
-	Vouches bool // a complete answer that vouches for c10Email (verified where the provider requires)
+	Vouches bool   // a complete answer that vouches for an email (verified where the provider requires)
+	Email   string // the vouched email if it is not c10Email
 }
 
 func c10TokenBodies(provider string) []c10Body {
@@ -38,54 +39,56 @@ func c10TokenBodies(provider string) []c10Body {
 	}
 	if provider == "google" {
 		return []c10Body{
-			{"complete", tok(claims(good)), true},
-			{"no-id-token", `{"access_token":"a","refresh_token":"r","expires_in":3600}`, false},
-			{"id-token-0-segments", tok(""), false},
-			{"id-token-1-segment", tok(b64seg(good)), false},
-			{"id-token-2-segments", tok(b64seg("h") + "." + b64seg(good)), true},
-			{"id-token-4-segments", tok(claims(good) + "." + b64seg("extra")), true},
-			{"id-token-bad-base64", tok("aaa.!!!not-base64!!!.ccc"), false},
-			{"id-token-bad-json", tok(claims(`{"email":`)), false},
-			{"email-verified-false", tok(claims(`{"email":"` + c10Email + `","email_verified":false}`)), false},
-			{"email-verified-absent", tok(claims(`{"email":"` + c10Email + `"}`)), false},
-			{"email-verified-string", tok(claims(`{"email":"` + c10Email + `","email_verified":"true"}`)), false},
-			{"empty-email", tok(claims(`{"email":"","email_verified":true}`)), false},
-			{"email-is-number", tok(claims(`{"email":42,"email_verified":true}`)), false},
-			{"truncated-json", `{"access_token":"a","id_token":"` + claims(good)[:20], false},
-			{"empty-body", ``, false},
-			{"html", `<html><body>Service Unavailable</body></html>`, false},
-			{"json-array", `[]`, false},
-			{"json-null", `null`, false},
+			{"complete", tok(claims(good)), true, ""},
+			{"no-id-token", `{"access_token":"a","refresh_token":"r","expires_in":3600}`, false, ""},
+			{"id-token-0-segments", tok(""), false, ""},
+			{"id-token-1-segment", tok(b64seg(good)), false, ""},
+			{"id-token-2-segments", tok(b64seg("h") + "." + b64seg(good)), true, ""},
+			{"id-token-4-segments", tok(claims(good) + "." + b64seg("extra")), true, ""},
+			{"id-token-bad-base64", tok("aaa.!!!not-base64!!!.ccc"), false, ""},
+			{"id-token-bad-json", tok(claims(`{"email":`)), false, ""},
+			{"email-verified-false", tok(claims(`{"email":"` + c10Email + `","email_verified":false}`)), false, ""},
+			{"email-verified-absent", tok(claims(`{"email":"` + c10Email + `"}`)), false, ""},
+			{"email-verified-string", tok(claims(`{"email":"` + c10Email + `","email_verified":"true"}`)), false, ""},
+			{"empty-email", tok(claims(`{"email":"","email_verified":true}`)), false, ""},
+			{"email-is-number", tok(claims(`{"email":42,"email_verified":true}`)), false, ""},
+			{"email-without-at-sign", tok(claims(`{"email":"alice","email_verified":true}`)), true, "alice"},
+			{"truncated-json", `{"access_token":"a","id_token":"` + claims(good)[:20], false, ""},
+			{"empty-body", ``, false, ""},
+			{"html", `<html><body>Service Unavailable</body></html>`, false, ""},
+			{"json-array", `[]`, false, ""},
+			{"json-null", `null`, false, ""},
 		}
 	}
 	// Okta and Cognito take the email from the userinfo call; the id_token they also receive names
 	// ANOTHER, unverified address, which must never end up in a session
 	other := claims(`{"email":"not.vouched@evil.test","email_verified":false}`)
 	return []c10Body{
-		{"complete", tok(other), true},
-		{"no-access-token", `{"refresh_token":"r","expires_in":3600}`, false},
-		{"truncated-json", `{"access_token":"idp-acc`, false},
-		{"empty-body", ``, false},
-		{"html", `<html><body>Bad Gateway</body></html>`, false},
-		{"json-null", `null`, false},
+		{"complete", tok(other), true, ""},
+		{"no-access-token", `{"refresh_token":"r","expires_in":3600}`, false, ""},
+		{"truncated-json", `{"access_token":"idp-acc`, false, ""},
+		{"empty-body", ``, false, ""},
+		{"html", `<html><body>Bad Gateway</body></html>`, false, ""},
+		{"json-null", `null`, false, ""},
 	}
 }
 
 func c10UserinfoBodies(provider string) []c10Body {
 	ver := provider == "okta"
 	return []c10Body{
-		{"complete-verified", `{"email":"` + c10Email + `","email_verified":true,"groups":["eng"]}`, true},
-		{"email-verified-false", `{"email":"` + c10Email + `","email_verified":false}`, !ver},
-		{"email-verified-absent", `{"email":"` + c10Email + `"}`, !ver},
+		{"complete-verified", `{"email":"` + c10Email + `","email_verified":true,"groups":["eng"]}`, true, ""},
+		{"email-verified-false", `{"email":"` + c10Email + `","email_verified":false}`, !ver, ""},
+		{"email-verified-absent", `{"email":"` + c10Email + `"}`, !ver, ""},
 		// Cognito reports email_verified as a string and the statement does not require it there; for
 		// Okta (boolean field) a string is a malformed answer
-		{"email-verified-string", `{"email":"` + c10Email + `","email_verified":"true"}`, !ver},
-		{"empty-email", `{"email":"","email_verified":true}`, false},
-		{"no-email", `{"email_verified":true,"sub":"123"}`, false},
-		{"truncated-json", `{"email":"` + c10Email, false},
-		{"empty-body", ``, false},
-		{"html", `<html>login</html>`, false},
-		{"json-null", `null`, false},
+		{"email-verified-string", `{"email":"` + c10Email + `","email_verified":"true"}`, !ver, ""},
+		{"empty-email", `{"email":"","email_verified":true}`, false, ""},
+		{"no-email", `{"email_verified":true,"sub":"123"}`, false, ""},
+		{"email-without-at-sign", `{"email":"alice","username":"alice","email_verified":true}`, true, "alice"},
+		{"truncated-json", `{"email":"` + c10Email, false, ""},
+		{"empty-body", ``, false, ""},
+		{"html", `<html>login</html>`, false, ""},
+		{"json-null", `null`, false, ""},
 	}
 }
 
@@ -203,8 +206,18 @@ func c10Run(c *fw.Ctx) {
 			return
 		}
 		vouched := tStatus == 200 && !tReset && tBody.Vouches
+		wantEmail := c10Email
+		if tBody.Email != "" && provider == "google" {
+			wantEmail = tBody.Email
+		}
 		if provider != "google" {
 			vouched = vouched && userinfoAsked && uStatus == 200 && !uReset && uBody.Vouches
+			if uBody.Email != "" {
+				wantEmail = uBody.Email
+			}
+		}
+		if target == "okta/callback" && !strings.HasSuffix(wantEmail, "@corp.test") {
+			vouched = false // vouched for by the provider, but the authenticator's own email rule refuses it
 		}
 		desc := map[string]interface{}{"target": target, "token_status": tStatus, "token_body": tBody.Name, "token_connection_reset": tReset,
 			"userinfo_asked": userinfoAsked, "reference_vouches": vouched, "error": fmt.Sprint(callErr), "http_status": status}
@@ -237,8 +250,8 @@ func c10Run(c *fw.Ctx) {
 			switch {
 			case !vouched:
 				viol("session-not-vouched/"+target+"/token="+fmt.Sprint(tStatus)+"-"+tBody.Name+"/userinfo="+ub, fmt.Sprintf("a session for %q was created although the provider did not vouch for it", sess.Email))
-			case sess.Email != c10Email:
-				viol("session-wrong-email/"+target, fmt.Sprintf("session email %q, provider said %q", sess.Email, c10Email))
+			case sess.Email != wantEmail:
+				viol("session-wrong-email/"+target, fmt.Sprintf("session email %q, provider said %q", sess.Email, wantEmail))
 			}
 		} else if target == "okta/callback" {
 			if status < 400 {
